@@ -302,7 +302,7 @@ class MVL(MoveInstruction):
                 # For pre-decrement sources, check if we need to continue
                 # Only update if there are more bytes to copy (I > 1)
                 loop_reg = Reg("I")
-                continue_cond = il.compare_signed_greater_than(
+                continue_cond = il.compare_unsigned_greater_than(
                     loop_reg.width(), loop_reg.lift(il), il.const(loop_reg.width(), 1)
                 )
 
